@@ -124,7 +124,7 @@ def check_roundtrip(case):
             other.to_file(path)
             df.Field.from_file(path)
             tag("overwritten-path")
-        f.to_file(path)
+        f.to_file(gen.path_arg(path, case["seed"]))
         if case.get("read_twice"):
             # the field returned by a read is the caller's: moving its mesh in place does not affect a later read
             first = df.Field.from_file(path)
@@ -137,7 +137,7 @@ def check_roundtrip(case):
             require(np.iscomplexobj(ds[...]) == np.iscomplexobj(f.array), "h5-array-dtype", f"{ds.dtype}")
             require(h["field/valid"].shape == tuple(mesh.n) and h["field/valid"].dtype == np.bool_, "h5-valid")
             require(np.array_equal(ds[...], f.array, equal_nan=True), "h5-array-values")
-        back = df.Field.from_file(path)
+        back = df.Field.from_file(gen.path_arg(path, case["seed"] + 1))
     r0, r1 = mesh.region, back.mesh.region
     require(np.array_equal(r1.pmin, r0.pmin) and np.array_equal(r1.pmax, r0.pmax), "corners",
             f"{r1.pmin}..{r1.pmax} vs {r0.pmin}..{r0.pmax}")
